@@ -124,14 +124,14 @@ def evalLine (fn0 tag : String) (a : Array Int) : String :=
   | "mul_d", 2 => showFP b64 (mulD a0 (FP.ofBits b64 a1.toNat))
   | "div_d", 2 => showFP b64 (divD a0 (FP.ofBits b64 a1.toNat))
   | "rdiv_d", 2 => showFP b64 (divDL (FP.ofBits b64 a1.toNat) a0)
-  | "add_f", 2 => (do let f ← fpToFixed b32 (FP.ofBits b32 a1.toNat); add a0 f).show
-  | "sub_f", 2 => (do let f ← fpToFixed b32 (FP.ofBits b32 a1.toNat); sub a0 f).show
-  | "radd_f", 2 => (do let f ← fpToFixed b32 (FP.ofBits b32 a1.toNat); add f a0).show
-  | "rmul_f", 2 => (do let f ← fpToFixed b32 (FP.ofBits b32 a1.toNat); mul f a0).show
-  | "rsub_f", 2 => (do let f ← fpToFixed b32 (FP.ofBits b32 a1.toNat); sub f a0).show
-  | "mul_f", 2 => (do let f ← fpToFixed b32 (FP.ofBits b32 a1.toNat); mul a0 f).show
-  | "div_f", 2 => (do let f ← fpToFixed b32 (FP.ofBits b32 a1.toNat); FixedMath.div a0 f).show
-  | "rdiv_f", 2 => (do let f ← fpToFixed b32 (FP.ofBits b32 a1.toNat); FixedMath.div f a0).show
+  | "add_f", 2 => (addFloat a0 (FP.ofBits b32 a1.toNat)).show
+  | "sub_f", 2 => (subFloat a0 (FP.ofBits b32 a1.toNat)).show
+  | "radd_f", 2 => (addFloatL (FP.ofBits b32 a1.toNat) a0).show
+  | "rmul_f", 2 => (mulFloatL (FP.ofBits b32 a1.toNat) a0).show
+  | "rsub_f", 2 => (subFloatL (FP.ofBits b32 a1.toNat) a0).show
+  | "mul_f", 2 => (mulFloat a0 (FP.ofBits b32 a1.toNat)).show
+  | "div_f", 2 => (divFloat a0 (FP.ofBits b32 a1.toNat)).show
+  | "rdiv_f", 2 => (divFloatL (FP.ofBits b32 a1.toNat) a0).show
   | "sin_angle", 1 =>
       if tag = "fx" then (sinAngleFixed a0).show
       else if tag = "f32" then (sinAngleFloat (FP.ofBits b32 a0.toNat)).show
@@ -158,13 +158,13 @@ def evalLine (fn0 tag : String) (a : Array Int) : String :=
       | "to_fixed", 1 => if t.mem a0 then (toFixed t a0).show else "bad-op"
       | "from_fixed", 1 => (fromFixed t a0).show
       | "a2r", 1 => if t.mem a0 then (angleToRadians t a0).show else "bad-op"
-      | "mul_s", 2 => if t.mem a1 then (mulScalar t a0 a1).show else "bad-op"
-      | "div_s", 2 => if t.mem a1 then (divScalar t a0 a1).show else "bad-op"
-      | "add_i", 2 => if t.mem a1 then (promoted t a1 (add a0)).show else "bad-op"
-      | "sub_i", 2 => if t.mem a1 then (promoted t a1 (sub a0)).show else "bad-op"
-      | "radd_i", 2 => if t.mem a1 then (promoted t a1 (fun f => add f a0)).show else "bad-op"
-      | "rsub_i", 2 => if t.mem a1 then (promoted t a1 (fun f => sub f a0)).show else "bad-op"
-      | "rdiv_i", 2 => if t.mem a1 then (promoted t a1 (fun f => FixedMath.div f a0)).show else "bad-op"
+      | "mul_s", 2 => if t.mem a1 then (mulInt t a0 a1).show else "bad-op"
+      | "div_s", 2 => if t.mem a1 then (divInt t a0 a1).show else "bad-op"
+      | "add_i", 2 => if t.mem a1 then (addInt t a0 a1).show else "bad-op"
+      | "sub_i", 2 => if t.mem a1 then (subInt t a0 a1).show else "bad-op"
+      | "radd_i", 2 => if t.mem a1 then (addIntL t a1 a0).show else "bad-op"
+      | "rsub_i", 2 => if t.mem a1 then (subIntL t a1 a0).show else "bad-op"
+      | "rdiv_i", 2 => if t.mem a1 then (divIntL t a1 a0).show else "bad-op"
       | _, _ => "bad-op"
 
 def processLine (line : String) : String :=
